@@ -421,13 +421,16 @@ def check(pl, res):
             key = "handled:none-instead-of-value" if m["out"].startswith("ok:") and r["out"].startswith("ok:") and m["out"].count("N") > r["out"].count("N") else \
                 "handled:wrong-exception" if r["out"].startswith("exc:") else "handled:wrong-result"
             v.append((key + sfx, f"{where}: dds.eval gives {m['out'][:110]}; plain execution (keep = call, completed results reused) gives {r['out'][:110]}", lab))
-        if tags(m, racy) != tags(r, racy):
+        # overlapping threads: both may find no blob yet and both call the function (dds promises no de-duplication of concurrent
+        # requests), or one may finish first and the other be served: how often the function runs is not determined
+        same_log = (set(tags(m, racy)) == set(tags(r, racy))) if racy else (tags(m, racy) == tags(r, racy))
+        if not same_log:
             nx = (calls_of(m, "x"), calls_of(r, "x"))
             key = "handled:failure-cached-within-evaluation" if nx[0] < nx[1] else "handled:handler-sees-another-exception" if nx[0] == nx[1] and \
                 [t for t in tags(m, racy) if not t.startswith("caught@")] == [t for t in tags(r, racy) if not t.startswith("caught@")] else "handled:executes-differently"
             v.append((key + sfx, f"{where}: the failing function was called {nx[0]} time(s), plain execution calls it {nx[1]} time(s); execution log {tags(m, racy)}, "
                       f"plain execution {tags(r, racy)}", lab))
-        if sorted(m["puts"]) != sorted(r["puts"]) or (not racy and m["puts"] != r["puts"]):
+        if (set(m["puts"]) != set(r["puts"])) if racy else (m["puts"] != r["puts"]):
             v.append(("handled:stores-differently" + sfx, f"{where}: blobs stored for {put_tags(m)} with values {m['puts']}; the functions that complete for the first time in plain "
                       f"execution: {put_tags(r)} with values {r['puts']}", lab))
         incomplete = [t for t in put_tags(m) if t != "?" and not any(x == t + ":done" for x, _ in m["log"])]
